@@ -80,6 +80,12 @@ impl RdRunner {
                 let state = match first {
                     'L' => { self.locked += 1; 'L' }
                     'S' => { self.forced_private += 1; 'P' }
+                    'D' => {
+                        // finished without reaching a hook point: the range check rejected it before try_lock
+                        out.bump("rd-start-rejected");
+                        let res = handle.join().unwrap_or("panic".into());
+                        return format!("done {th} {res}");
+                    }
                     _ => '?',
                 };
                 self.readers.insert(th, Reader { go: go_tx, at: at_rx, handle: Some(handle), state });
@@ -222,7 +228,7 @@ pub fn run(args: &Args) -> Out {
                 let th: u64 = it.next().unwrap().parse().unwrap_or(0);
                 let got = it.next().unwrap_or("");
                 if let Some((pos, n)) = reqs.remove(&th) {
-                    let want = if n == 0 { "-".to_string() } else if (pos + n) as usize <= file.len() { hex(&file[pos as usize..(pos + n) as usize]) } else { "err".into() };
+                    let want = if (pos + n) as usize <= file.len() { hex(&file[pos as usize..(pos + n) as usize]) } else { "err".into() };
                     if got != want { out.violation("C23/concurrent-read-differs/FileStorage::read", &format!("read({pos},{n}) by thread {th} must return its sequential result"), want, got.into()); }
                 }
             }
